@@ -147,7 +147,7 @@ def send_update_message(peer_ip):
                                 ext_community.append([2, vau.strip()])
                             else:
                                 if res['peer']['capability']['remote']:
-                                    four_bytes_as = res['peer']['capability']['remote']['four_bytes_as']
+                                    four_bytes_as = res['peer']['capability']['remote'].get('four_bytes_as')
                                 else:
                                     return flask.jsonify({
                                         'status': False,
@@ -171,7 +171,7 @@ def send_update_message(peer_ip):
                             ext_community.append([259, vau.strip()])
                         else:
                             if res['peer']['capability']['remote']:
-                                four_bytes_as = res['peer']['capability']['remote']['four_bytes_as']
+                                four_bytes_as = res['peer']['capability']['remote'].get('four_bytes_as')
                             else:
                                 return flask.jsonify({
                                     'status': False,
@@ -323,7 +323,7 @@ def json_to_bin(peer_ip):
                             else:
                                 # 4 byte, need to check whether four_bytes_as is true in capability
                                 if res['peer']['capability']['remote']:
-                                    four_bytes_as = res['peer']['capability']['remote']['four_bytes_as']
+                                    four_bytes_as = res['peer']['capability']['remote'].get('four_bytes_as')
                                 else:
                                     return flask.jsonify({
                                         'status': False,
@@ -347,7 +347,7 @@ def json_to_bin(peer_ip):
                             ext_community.append([259, vau.strip()])
                         else:
                             if res['peer']['capability']['remote']:
-                                four_bytes_as = res['peer']['capability']['remote']['four_bytes_as']
+                                four_bytes_as = res['peer']['capability']['remote'].get('four_bytes_as')
                             else:
                                 return flask.jsonify({
                                     'status': False,
